@@ -2,11 +2,11 @@
 CLAIMS = {
  'C07': {
   'category': 'proof',
-  'technique': 'Lean 4 theorems on the generated operator/keyword tables and the scanner model + differential correspondence + spec-lexer oracle',
+  'technique': 'Lean 4 theorems on the generated operator/keyword tables, the scanner model and its token loop (whole-input tiling by induction) + differential correspondence + spec-lexer oracle',
   'text': 'Theorems (Props/C07.lean) about the scanner model over the operator and keyword tables regenerated from token.rs on every run; '
           'the model is validated against the real scanner (hook verif_scan) on every ordered pair of ~110 representative tokens x 6 separators and on random streams; '
           'an independent transcription of the lexical grammar judges the implementation token lists. The theorems cover the table facts and the per-token functions, '
-          'the whole-stream statement is decided by correspondence + oracle (partial).',
+          'the whole-stream statement is a theorem too (Props/C07b.lean, C09e.lean): the token loop of Model/ScanAll.lean - the function the driver runs for every scan case of the correspondence - returns, for every source text, a token list that tiles the text (scanTokens_tiles: nothing dropped, invented or moved; every token is scan_token\'s answer at its offset, so longest match and the literal grammars hold for every token of every text), and never exhausts its step bound (scanTokens_fuel). Correspondence + oracle tie scanner.rs to that model.',
   'note': 'Identifier characters and white space as in the property quantifier.',
  },
  'C08': {
@@ -15,6 +15,7 @@ CLAIMS = {
   'text': 'Theorem lineEnded_iff_spec: for every character sequence the model of Scanner::line_ended answers true exactly when the rest of the line is a line end in the sense of the Go spec '
           '(blanks, newline-free general comments skipped; newline, EOF, line comment, general comment reaching a newline end the line). trigger_table_partial: the trigger table regenerated from scanner.rs equals the spec list '
           'except for `package` (trigger_package_cex; known finding K1, pinned by a unit test). The model is validated against the real scanner on the exhaustive grid token kind x line-ending context and on random lines; '
+          'Whole texts (Props/C08b.lean, scanTokens_semicolons): in the token list of any text scanned without an error, a pair is the automatic semicolon only where the previous token is a trigger and the line ends there per the spec, a token is read from the text only where no semicolon is due, and the text never ends while one is due. '
           'newline vs explicit-semicolon renderings of every corpus program are parsed to equal trees.'
           ' Whole step: synthetic_semicolon / no_synthetic_semicolon (next_token returns the automatic `;` at the current position, consuming nothing, exactly when the flag is set and the line has ended in the spec sense; otherwise it scans from the text), '
           'flag_after_token (after any scanned token the flag is the trigger table on that token), flag_after_synthetic (one `;` per line end), goback_restores_flag (backtracking restores the saved flag).',
@@ -33,7 +34,7 @@ CLAIMS = {
   'technique': 'Lean 4 proof that the number-scanner model accepts exactly the spec literals with the spec kind (soundness + completeness, unbounded) + exhaustive/sampled differential correspondence + regular-expression oracle of the spec EBNF',
   'text': 'Proved for every input, no bound on length: number_sound (whatever scan_lit_number accepts when called as scan_token calls it is an int_lit / float_lit / imaginary_lit of Spec/Numbers.lean, of the reported kind), '
           'number_complete (every literal of the spec followed by a character that cannot continue a number is accepted whole with the spec kind and its own text), number_iff (the two as an equivalence); '
-          'number_text_is_source (the text is a prefix of the remaining input, the scanner advances by its length), scanDigitsGo_sound/_complete (the underscore rule), facts_of_ok / with_complete (the eleven checks of the staged scanner, inverted and replayed). '
+          'number_text_is_source (the text is a prefix of the remaining input, the scanner advances by its length), scanDigitsGo_sound/_complete (the underscore rule), facts_of_ok / with_complete (the eleven checks of the staged scanner, inverted and replayed); Props/C09e.lean tiling_numbers: in the token list of every text scanned without an error, every Integer / Float / Imag token is a literal of the spec of exactly that kind, verbatim at its offset. '
           'The model is tied to scanner.rs by exhaustive comparison (all strings to length 4 quick / 5 thorough over the property alphabet, sampled to length 7, structured literals to length 14) of implementation, model and an independent regex transcription of the EBNF.',
   'note': 'Enumeration bound of the correspondence is below the property text (6/7) for run time; lengths beyond are sampled. The theorems have no bound. Spec/Numbers.lean (the EBNF as inductive predicates) is trusted.',
  },
@@ -42,7 +43,7 @@ CLAIMS = {
   'technique': 'Lean 4 proof that the rune/string scanner model accepts exactly the spec literals, verbatim (iff, unbounded, all three quote kinds) + exhaustive/sampled differential correspondence + spec recogniser oracle',
   'text': 'Proved for every input, no bound on length: rune_iff_spec / rune_sound / rune_complete (scan_lit_rune accepts exactly one unicode_value or byte_value between single quotes: listed escapes only, exact digit counts, code point at most 0x10FFFF and no surrogate, octal at most 255, \\\' allowed and \\" not, no newline), '
           'string_iff_spec / string_sound / string_complete (the same for interpreted strings with \\" allowed and \\\' not), raw_iff_spec, stringLit_iff (both string kinds: accepted as t iff t is a string_lit of Spec/Strings.lean and a prefix of the text); '
-          'rune_text_is_source, string_text_is_source (text kept verbatim including quotes). The model is tied to scanner.rs by exhaustive comparison of implementation, model and an independent recogniser over all bodies to length 3 quick / 4 thorough x 3 quote kinds, sampled to 6, and structured escapes of every form.',
+          'rune_text_is_source, string_text_is_source (text kept verbatim including quotes); Props/C09e.lean tiling_runes / tiling_strings, Props/C07b.lean tiling_text_at: every Char / String token of every text scanned without an error is a rune_lit / string_lit of the spec and stands verbatim at its offset. The model is tied to scanner.rs by exhaustive comparison of implementation, model and an independent recogniser over all bodies to length 3 quick / 4 thorough x 3 quote kinds, sampled to 6, and structured escapes of every form.',
   'note': 'Enumeration bound of the correspondence is below the property text (5/6) for run time; longer bodies are sampled/structured. The theorems have no bound. Spec/Strings.lean is trusted.',
  },
  'C04': {
@@ -61,7 +62,7 @@ CLAIMS = {
           'binarySearch_sorted, lineInfo_sorted, lineInfo_total, lineInfo_profile: for every sorted line table and offset the column is the true column, the line is the true line minus one from line 2 on (known finding K2, pinned by a unit test; stated as theorem and counterexample), '
           'and the lookup never panics or wraps for any table. The rest of the property (crate error type, path, location of the unexpected token, Display returns) is decided on rejected inputs (mutated corpus programs, soup, unterminated tokens at every line, multi-line tokens and backtracking before the error, nesting 62-200) '
           'by model/implementation correspondence on (variant, line, col, token) and an oracle that looks the token text up at the reported place; partial proof.'
-          ' Props/Lines.lean: linesOK_next / linesOK_goback (every successful scanner step and every backtracking keeps the line table exactly the offsets after the newlines before the scanner position), sorted_of_linesOK, lineOf_reachable, mem_lines: the sortedness hypothesis holds in every reachable scanner state.',
+          ' Props/Lines.lean: linesOK_next / linesOK_goback (every successful scanner step and every backtracking keeps the line table exactly the offsets after the newlines before the scanner position), sorted_of_linesOK, lineOf_reachable, mem_lines: the sortedness hypothesis holds in every reachable scanner state; Props/LinesAll.lean scanTokens_lines: after a whole text the table is exactly the text`s line-start table.',
   'note': 'The table after a *failed* token (add_line for the newlines of an unterminated raw string / comment) is compared by correspondence on every scan case, not by theorem.',
  },
  'C20': {
@@ -123,6 +124,7 @@ CLAIMS = {
   'category': 'proof',
   'technique': 'Lean 4 theorems that white space and newline-free comments never influence the token read or the semicolon decision + k independent random layouts of one token sequence against the real parser',
   'text': 'Proved for every scanner state: the token scanner is started on the input with all leading white space removed (rest_after_skip, same_token_after_blanks), blanks and newline-free general comments do not change the semicolon decision and any other comment acts as a newline (C08 lineEnded_iff_spec). '
+          'For all that follows a point, not only the next token (Props/C13b.lean scan_gap, Props/C15b.lean scanTokensAcc_rel): a leading white gap of the same newline-ness gives the same token sequence with the same automatic semicolons, and what precedes a point influences the tokens after it only through the pending-semicolon flag. '
           'The parser half (it only sees tokens) is decided by execution: each token sequence (generated programs and the token lists of all corpus programs) is rendered in 3 (quick) / 8 (thorough) independently randomised layouts - comments at any gap, line breaks wherever no semicolon is inserted, explicit/newline/omitted terminators, trailing commas - and all must give the same erased tree. Partial proof.',
   'note': 'Comment handling inside the parser (comment tokens filtered in next(), re-scan after goback) is covered by correspondence, not by a theorem yet.',
  },
@@ -164,7 +166,7 @@ CLAIMS = {
  'C15': {
   'category': 'proof',
   'technique': 'Lean 4 step lemmas of the level-restoration invariant (open-recursion bodies) and of the backtracking state + fragment / prefix / call-history differential with positions shifted',
-  'text': 'Proved for every state: parse_next_level_expr and type_ restore the nesting level on success given their callees do (steps of the whole-parser induction), the decrement also runs on the error path, inc then dec is the identity; backtracking keeps exactly the comments before the restored position; line numbers used later are true lines. '
+  'text': 'Proved for every state: parse_next_level_expr and type_ restore the nesting level on success given their callees do (steps of the whole-parser induction), the decrement also runs on the error path, inc then dec is the identity; backtracking keeps exactly the comments before the restored position; line numbers used later are true lines; the scanner is position independent (Props/C15b.lean: view_eq, scan_embedded, scan_fragment - same remaining text and flag give the same tokens shifted by the position difference, over any source, line table and profile) and repeats after goback exactly what it did from the mark (goback_same_tokens). '
           'The whole statement is decided by execution: corpus and generated declarations, statements and expressions are parsed alone and embedded after state-leaving prefixes (re-read type-parameter lists and array lengths, control headers, 60-deep nesting, interface elements that fail as methods, multi-line tokens, non-ASCII comments before blank lines, generated declaration sequences in random layouts); '
           'the embedded subtree must equal the stand-alone tree with every position shifted by the prefix length; sequences of statements parsed by repeated parse_stmt calls on one parser must each equal their stand-alone parse. Partial proof.',
   'note': 'The induction over all ~60 productions (every production restores the level on success) is not assembled yet; the long flat files of C02 (each construct 70 times) exercise level leaks as well.',
